@@ -28,6 +28,13 @@ Each route of the harness is lowered to the bank / hold primitive the Go code re
   spendable X       bank gRPC `SpendableBalances` (+ `SpendableBalanceByDenom` per denom)
   kspend X vb hb    `SpendableCoins` / `LockedCoins` under the two context bypass flags
   inv               `HoldAccountBalancesInvariant`
+  floor c           msgfees parameter `FloorGasPrice` (base fee of a transaction = floor × gas)
+  grant X P         feegrant `GrantAllowance(X, P, unlimited BasicAllowance)`
+  tx P gas= fee= [granter=X] to=T amt= [mode=full]
+                    one transaction as `baseapp.runTx` runs it: ante handler (the app's complete
+                    one for `mode=full`, else its fee decorators) → `feeTx`: base fee from the payer
+                    (P, or X through the fee grant), then the bank `MsgSend` P → T through the
+                    message router, then the fee handler's sweep of the rest of the fee
 
 The send-restriction outcome of each transfer is: the quarantine redirect (recipient opted in →
 funds holder, recorded) followed by the history's directive `r=` (ok / deny / other recipient),
@@ -77,6 +84,10 @@ structure DState where
   /-- funds committed to market 1, per account (canonical coins) -/
   commits : List (Addr × Coins) := []
   accts : List Addr := []
+  /-- msgfees `FloorGasPrice` -/
+  floor : Denom × Int := ("", 0)
+  /-- fee grants `(granter, grantee)`, all of them unlimited basic allowances -/
+  grants : List (Addr × Addr) := []
   quarantined : List Addr := []
   /-- quarantine records `(to, from, coins)` -/
   qrecs : List (Addr × Addr × Coins) := []
@@ -356,6 +367,93 @@ def lowerMsg (ds : DState) (ws : List String) : Option (List Op × (DState → D
         fun d => addCommits (subCommits d rels) outs)
   | _ => none
 
+/-! ### transactions: the fee-payment route -/
+
+/-- the pieces of a `tx` line -/
+structure TxLine where
+  p : Addr
+  gas : Nat
+  fee : Coins
+  granter : Option Addr
+  to : Addr
+  amt : Coins
+  full : Bool
+
+def parseTx (ws : List String) : Option TxLine :=
+  match ws with
+  | "tx" :: p :: rest =>
+    match (kv rest "gas").bind parseNat?, (kv rest "fee").bind parseCoins?, kv rest "to",
+        (kv rest "amt").bind parseCoins? with
+    | some gas, some fee, some to, some amt =>
+      let full := kv rest "mode" = some "full"
+      if !isValid fee || (full && p ≠ "S") then none
+      else some { p := p, gas := gas, fee := fee, granter := kv rest "granter", to := to, amt := amt, full := full }
+    | _, _, _, _ => none
+  | _ => none
+
+/-- provenance_fee.go:161 `GetFeePayerUsingFeeGrant`: the granter pays when one is named and is not
+the signer itself -/
+def TxLine.payer (t : TxLine) : Addr :=
+  match t.granter with
+  | some g => if g ≠ t.p then g else t.p
+  | none => t.p
+
+/-- provenance_fee.go:189 `CalculateBaseFee`: floor gas price × gas wanted (`sdk.NewCoins` drops a zero) -/
+def baseFeeOf (floor : Denom × Int) (t : TxLine) : Coins :=
+  let x := floor.2 * (t.gas : Int)
+  if x = 0 then [] else [(floor.1, x)]
+
+/-- msg_fee_invoker.go:71 `feeTx.GetFee().SafeSub(baseFeeConsumed)`: zeros dropped, a stated fee
+below the base fee leaves a negative entry -/
+def restFeeOf (fee base : Coins) : Coins := Coins.canon (fee ++ Coins.neg base)
+
+/-- the message of the transaction, bank `MsgSend` P → T (msg_server.go:29): refused before the
+keeper is reached (`err:…`), or the `SendCoins` it makes and whether quarantine records it -/
+def txBody (ds : DState) (t : TxLine) : Except String (List Op × Bool) :=
+  if !isValid t.amt || !isAllPositive t.amt then .error "err:invalid"
+  else if isBlocked ds.s t.to then .error "err:blocked"
+  else
+    let (r, rec) := resolve ds false t.p t.to none
+    .ok ([.send {} t.p t.to t.amt r], rec)
+
+def execTx (ds : DState) (t : TxLine) : DState × String :=
+  let noGrant := match t.granter with
+    | some g => g ≠ t.p && !ds.grants.contains (g, t.p)
+    | none => false
+  if t.gas = 0 then (ds, "err:gas")                       -- provenance_fee.go:65 / out of gas at once
+  else if t.full && t.gas > 4000000 then (ds, "err:gas")  -- tx_gas_limit_decorator.go:53
+  else if noGrant then (ds, "err:nogrant")                -- feegrant `UseGrantedFees`
+  else
+    let base := baseFeeOf ds.floor t
+    let rest := restFeeOf t.fee base
+    let ante := deductFeeOps t.payer "FEE" base
+    match applyAll ds.s ante with
+    | .error _ => (ds, "err:funds")   -- `DeductFees` wraps every error of the send as insufficient funds
+    | .ok s₁ =>
+      match txBody ds t with
+      | .error e => ({ ds with s := s₁ }, s!"ok msgfail {e}")
+      | .ok (body, rec) =>
+        match applyAll s₁ body with
+        | .error e => ({ ds with s := s₁ }, s!"ok msgfail {e.toString}")
+        | .ok _ =>
+          -- x/msgfees keeper.go:164: a negative rest is refused; :172 every error is insufficient funds
+          if isAnyNegative rest then ({ ds with s := s₁ }, "ok sweepfail err:funds")
+          else
+            match feeTx ds.s t.payer "FEE" base rest body with
+            | .done s₃ =>
+              ({ ds with s := s₃, qrecs := if rec then addRecord ds.qrecs t.to t.p t.amt else ds.qrecs }, "ok done")
+            | o => ({ ds with s := o.state ds.s }, "ok sweepfail err:funds")
+
+/-- what an accepted transaction did, for `LockSpec.movesKeepHolds`: the base fee always, the
+message's send and the sweep when the implementation says all of it went through -/
+def txOps (ds : DState) (t : TxLine) (impl : String) : List Op :=
+  let base := baseFeeOf ds.floor t
+  let ante := deductFeeOps t.payer "FEE" base
+  if impl = "ok done" then
+    ante ++ (match txBody ds t with | .ok (b, _) => b | .error _ => []) ++
+      deductFeeOps t.payer "FEE" (posCoins (restFeeOf t.fee base))
+  else ante
+
 def isMsgOp (op : String) : Bool :=
   ["payaccept", "payreject", "paycancel", "ordcancel", "fillbids", "fillasks", "settle", "crelease", "csettle"].contains op
 
@@ -439,6 +537,17 @@ def execOp (ds : DState) (ws : List String) : DState × String :=
   | ["mktwithdraw", t, cs] =>
     if isBlocked ds.s t then (ds, "err:blocked")
     else doSend ds { quarantineBypass := decide (t = "ADM") } "MKT" t (coinsArg cs) none
+  | ["floor", c] =>
+    match parseCoin? c with
+    | some f => if f.2 < 0 then (ds, "bad-op") else ({ ds with floor := f }, "ok")
+    | none => (ds, "bad-op")
+  | ["grant", x, p] =>
+    if ds.grants.contains (x, p) then (ds, "err:other")   -- "fee allowance already exists"
+    else ({ ds with grants := ds.grants ++ [(x, p)] }, "ok")
+  | "tx" :: _ =>
+    match parseTx ws with
+    | some t => execTx ds t
+    | none => (ds, "bad-op")
   | ["hold", a, cs] => finish ds (addHold ds.s {} a (coinsArg cs))
   -- exchange commitments.go:100 `addCommitment` / payments.go:205 `CreatePayment` → `AddHold`
   | ["commit", a, cs] =>
@@ -562,6 +671,14 @@ def verdict (ds : DState) (ws : List String) (impl : String) : String :=
     | none => "-"
     | some sn =>
       if holdWithinSpendable sn (Coins.canon (coinsArg cs)) then "ok" else "fail:hold_exceeds_spendable"
+  | "tx" :: _ =>
+    -- an accepted transaction: the base fee (and, when all of it went through, the message's send
+    -- and the rest of the fee) must each fit into `bal − hold` of the paying account at that moment
+    if r ≠ "ok" then "ok"
+    else match ds.lastDump, parseTx ws with
+      | some d, some t =>
+        if movesKeepHolds (parseDump d) (movesOf (txOps ds t impl)) then "ok" else "fail:held_funds_left:tx"
+      | _, _ => "-"
   | op :: _ =>
     if isMsgOp op then
       if r ≠ "ok" then "ok"
